@@ -32,7 +32,7 @@ CHECKS = {
    text="Every cut position 1..len-1 of 25 small seed frames (all option combinations that change the layout, legacy, dependent blocks) is executed against Readers with concurrency {1,2,4} through Read (buffered and direct) and WriteTo: no clean end of stream, delivered bytes are a prefix. For the three large frames cuts are enumerated at every field boundary +-3 plus seeded interior positions.",
    ref="6/C06"),
  "C07": dict(cat="exploration", tech="hostile-input stress in child processes with monitors: panic recovery, process-death classification (stack overflow, fault), step budgets (runaway loop), peak-memory monitor (VmHWM + MemStats.Sys), first-word classifier, exact-skip check",
-   text="Random, mutated and grammar-built hostile streams and 10M-fold repetitions of a single field are fed to real Readers (concurrency 1 and 4, Read and WriteTo) inside child processes; a child that dies is itself the observation. Liveness is restated as bounded progress on finite budgeted sources. Memory growth is bounded by 64 MiB + (3*concurrency+4) x block maximum.",
+   text="Random, mutated and grammar-built hostile streams and 10M-fold repetitions of a single field are fed to real Readers (concurrency 1 and 4, Read and WriteTo) inside child processes; a child that dies is itself the observation. Liveness is restated as bounded progress on finite budgeted sources. Memory growth is bounded by 64 MiB + (3*concurrency + 4 + 2*GOMAXPROCS) x the block maximum the input declares.",
    ref="6/C07"),
  "C17": dict(cat="exploration", tech="model-based runtime monitoring of call histories: exhaustive enumeration of all call sequences up to length 4 (thorough 5) over parameterised Writer and Reader alphabets plus seeded long and directed sequences, executed on the real objects under an executable lifecycle model, an in-process state-based deadlock monitor, budgeted sinks/sources and differential replay on fresh objects",
    text="170k histories (quick) are executed on sequential and concurrent objects. The model asserts only the clauses of the property; deadlock is decided from goroutine states (every goroutine inside the library parked, none runnable), runaway loops from call budgets. Sequences beyond the bound are sampled.",
